@@ -70,6 +70,11 @@ def protocol_from_http(protocol_str):
     return int(protocol_str[5]), int(protocol_str[7])
 
 
+# One byte-range-spec or suffix-byte-range-spec of RFC 7233 sec 2.1,
+# with optional whitespace (SP / HTAB) around the numbers.
+_byte_range_spec = re.compile(r'[ \t]*([0-9]*)[ \t]*-[ \t]*([0-9]*)[ \t]*')
+
+
 def get_ranges(headervalue, content_length):
     """Return a list of (start, stop) indices from a Range header, or None.
 
@@ -79,14 +84,26 @@ def get_ranges(headervalue, content_length):
     resource[3:7]. This function will return the list [(3, 7)].
 
     If this function returns an empty list, you should return HTTP 416.
+
+    None is returned if there is no Range header, or if it is not a
+    syntactically valid "bytes" range: such a header must be ignored.
     """
     if not headervalue:
         return None
 
     result = []
-    bytesunit, byteranges = headervalue.split('=', 1)
+    bytesunit, sep, byteranges = headervalue.partition('=')
+    if not sep or bytesunit.lower() != 'bytes':
+        # Not a byte range (rfc 7233 sec 3.1: "An origin server MUST
+        # ignore a Range header field that contains a range unit it
+        # does not understand.")
+        return None
     for brange in byteranges.split(','):
-        start, stop = [x.strip() for x in brange.split('-', 1)]
+        spec = _byte_range_spec.fullmatch(brange)
+        if spec is None:
+            # Syntactically invalid: see the rfc 2616 quote below.
+            return None
+        start, stop = spec.groups()
         if start:
             if not stop:
                 stop = content_length - 1
